@@ -1,8 +1,8 @@
 #!/bin/bash
-# validate_seeded.sh <ID>   e.g. C09 : confirms, in the scratch worktree /tmp/wt-<ID>, that each seeded change
+# validate_seeded.sh <ID> [worktree-prefix] [number-offset]   e.g. C09 /tmp/w2- 2 : confirms, in the scratch worktree /tmp/wt-<ID>, that each seeded change
 # (a) applies to HEAD, (b) keeps the repository's own test suite green, (c) makes its demonstration fail,
 # (d) the demonstration passes without it. Accepted changes are stored as /verif/seeded/<ID>-<n>/.
-id=$1; wt=/tmp/wt-$id; sd=$wt/SEEDED
+id=$1; pre=${2:-/tmp/wt-}; off=${3:-0}; wt=$pre$id; sd=$wt/SEEDED
 export CARGO_NET_OFFLINE=true
 cd "$wt" || exit 1
 git checkout -q -- . ; rm -f tests/seeded_demo*.rs
@@ -25,10 +25,10 @@ for n in 1 2; do
   verdict=REJECTED
   if [ $clean = pass ] && [ $mutated = fail ] && [ $suite = pass ]; then
     verdict=ACCEPTED
-    out=/verif/seeded/$id-$n; mkdir -p $out
+    out=/verif/seeded/$id-$((n+off)); mkdir -p $out
     { echo "# property: $id"; cat "$d"; } > $out/patch.diff
     cp "$demo" $out/demo.rs
-    python3 - "$id" "$n" "$sd/notes.md" "$out/meta.json" "$npass" <<'PY'
+    python3 - "$id" "$((n+off))" "$sd/notes.md" "$out/meta.json" "$npass" <<'PY'
 import sys, json, re
 pid, n, notes, outp, npass = sys.argv[1:6]
 txt = open(notes).read() if __import__('os').path.exists(notes) else ''
@@ -42,5 +42,5 @@ json.dump({
 }, open(outp, "w"), indent=1)
 PY
   fi
-  echo "$id-$n: $verdict demo(clean)=$clean demo(changed)=$mutated suite=$suite($npass)"
+  echo "$id-$((n+off)): $verdict demo(clean)=$clean demo(changed)=$mutated suite=$suite($npass)"
 done
